@@ -20,7 +20,8 @@ def ctor(crate):
     bs = [b for b in crate.method("extract::Extractor", "new")]
     if len(bs) != 1:
         raise mir.AnchorMissing("Extractor::new")
-    return bs[0]
+    # helpers split off the constructor (leaf seeding, the usages loop) are looked through
+    return mir.inline_view(crate, bs[0], keep=("cost", "class_nf", "lookup", "usages", "enodes", "ids"))
 
 
 @rule("X0", doc="candidate generation is exhaustive")
@@ -49,6 +50,7 @@ def x0(ctx):
     for i, c in enumerate(pushes):
         conds = C.conditions_at(b, c.bb)
         guards = []
+        cond_role = {}
         for e, cond in conds:
             r = cond[1] if len(cond) > 1 else None
             if cond[0] in ("true", "false") and isinstance(r, tuple) and r[0] == "const":
@@ -56,10 +58,13 @@ def x0(ctx):
             if isinstance(r, tuple) and r[0] == "discr":
                 continue
             guards.append((cond[0], role_str(cond[1])[:120] if len(cond) > 1 else ""))
+            cond_role[guards[-1][1]] = cond[1] if len(cond) > 1 else None
         ctx.info("push #%d guarded by %s" % (i, guards))
         allowed = 0
         for kind, txt in guards:
             if kind == "true" and (txt.startswith("is_empty(applied_id_occurrences") or txt.startswith("all(")):
+                allowed += 1
+            elif kind == "true" and C.is_forall_role(crate, cond_role[txt], "contains_key", over=("applied_id_occurrences",)):
                 allowed += 1
             elif kind == "false" and txt.startswith("unwrap_or(map(lookup("):
                 allowed += 1
@@ -155,6 +160,8 @@ def x3(ctx):
         for e, cond in conds:
             if cond[0] == "true":
                 r = strip_role(cond[1])
+                if C.is_forall_role(crate, r, "contains_key", over=("applied_id_occurrences",)) and not (isinstance(r, tuple) and r[0] == "call" and r[1] == "all"):
+                    okall = True
                 if isinstance(r, tuple) and r[0] == "call" and r[1] == "all" and role_mentions_call(r, "applied_id_occurrences"):
                     # the predicate closure tests membership in the table
                     cl = [x for x in role_walk(r) if isinstance(x, tuple) and x[0] == "agg" and "closure" in str(x[1])]
